@@ -141,6 +141,14 @@ def mutations(text, ops=None):
                            'ST' + ele + '837' + ele + '0009', 'GS' + ele + 'HC' + ele + 'S' + ele + 'R' + ele + '20040102' + ele + '1200' + ele + '9' + ele + 'X' + ele + '004010X098A1',
                            'SE', 'GE', 'IEA', 'HL' + ele + 'x' + ele + 'y' + ele + '20' + ele + '1', 'LX' + ele + 'x'):
                 yield ('insert-%s@%d' % (orphan.split(ele)[0] + ('-bare' if ele not in orphan else ''), i), join_segments(d, segs[:i + 1] + [orphan] + segs[i + 1:]))
+            # an interchange acknowledgement (legal only between ISA and GS) and an unknown segment, well formed and not
+            for name, orphan in (('TA1', 'TA1' + ele + '000000001' + ele + '040102' + ele + '1200' + ele + 'A' + ele + '000'),
+                                 ('TA1-bad', 'TA1' + ele + '000000001' + ele + '04010277' + ele + '1200' + ele + 'Q' + ele + '000' + ele + 'A'),
+                                 ('ZZZ', 'ZZZ' + ele + '1')):
+                yield ('insert-%s@%d' % (name, i), join_segments(d, segs[:i + 1] + [orphan] + segs[i + 1:]))
+            yield ('extra-elements-100@%d:%s' % (i, sid), join_segments(d, segs[:i] + [segs[i] + (ele + 'A') * 100] + segs[i + 1:]))
+            if segs[i].count(ele) > 1:
+                yield ('first-element-only@%d:%s' % (i, sid), join_segments(d, segs[:i] + [ele.join(segs[i].split(ele)[:2])] + segs[i + 1:]))
             yield ('empty-line@%d' % i, join_segments(d, segs[:i + 1]) + d[0] + join_segments(d, segs[i + 1:]))
             yield ('blank-line@%d' % i, join_segments(d, segs[:i + 1]) + '  ' + d[0] + join_segments(d, segs[i + 1:]))
             if sid in ('SE', 'GE', 'IEA', 'HL', 'LX'):
@@ -216,3 +224,62 @@ def ta1_docs(entries=None):
                     if mask >> k & 1:
                         d.segs[i][14] = '1'
                 yield ('ta1:%s:%d:%s' % (e[4], ni, format(mask, 'b').zfill(ni)), d, {'entry': e, 'valid': True})
+
+
+HOSTILE = ['--', '1-2-3', '20040618-20040623-', '{x}', '}', '%s', '\\', '-.', '1e9', ' ', '00000000', '99999999', 'A' * 300]
+
+
+def value_mutations(text, values=None, stride=1):
+    """every element / component of every segment (after the ISA) replaced, one at a time, by every hostile value"""
+    d, segs, tail = split_segments(text)
+    seg_t, ele, sub = d
+    k = 0
+    for i in range(1, len(segs)):
+        parts = segs[i].split(ele)
+        for j in range(1, len(parts)):
+            comps = parts[j].split(sub)
+            for c in range(len(comps)):
+                for v in (values or HOSTILE):
+                    if v == comps[c] or any(x in v for x in d):
+                        continue
+                    k += 1
+                    if k % stride:
+                        continue
+                    c2 = list(comps); c2[c] = v
+                    p2 = list(parts); p2[j] = sub.join(c2)
+                    yield ('value@%d:%s%02d%s=%r' % (i, parts[0], j, '-%d' % (c + 1) if len(comps) > 1 else '', v[:12]),
+                           join_segments(d, segs[:i] + [ele.join(p2)] + segs[i + 1:]))
+
+
+def governed_value_mutations(text, values=None):
+    """elements whose format is governed by a date/time qualifier next to them (D8, RD8, TM, DT, D6): the governed
+    value replaced by every hostile value, once per (segment id, position, qualifier) of the document"""
+    d, segs, tail = split_segments(text)
+    seg_t, ele, sub = d
+    quals = set(gen.DT_BY_QUAL) - {'D6x'}
+    seen = set()
+    for i in range(1, len(segs)):
+        parts = segs[i].split(ele)
+        for j in range(1, len(parts)):
+            comps = parts[j].split(sub)
+            for c in range(len(comps)):
+                if comps[c] not in quals:
+                    continue
+                # the governed value: next component of the same composite, else the next element
+                if c + 1 < len(comps):
+                    tj, tc = j, c + 1
+                elif len(comps) == 1 and j + 1 < len(parts):
+                    tj, tc = j + 1, 0
+                else:
+                    continue
+                key = (parts[0], tj, tc, comps[c])
+                if key in seen:
+                    continue
+                seen.add(key)
+                for v in (values or HOSTILE):
+                    if any(x in v for x in d):
+                        continue
+                    p2 = list(parts)
+                    c2 = p2[tj].split(sub); c2[tc] = v; p2[tj] = sub.join(c2)
+                    yield ('governed@%d:%s%02d[%s]=%r' % (i, parts[0], tj, comps[c], v[:12]),
+                           join_segments(d, segs[:i] + [ele.join(p2)] + segs[i + 1:]))
